@@ -14,6 +14,9 @@ From PrefVerif Require Model.SP Model.SC Model.Tree Model.Euclid Model.C1P Model
 From PrefVerif Require Proofs.SP Proofs.SC Proofs.Tree Proofs.Euclid Proofs.C1P Proofs.Approval.
 From PrefVerif Require Model.SCAlgo Model.TreeAlgo Proofs.SCAlgo Proofs.TreeAlgo Proofs.Pairwise.
 From PrefVerif Require Model.ELO Proofs.ELO.
+From PrefVerif Require Model.ELPDP Model.PartitionAlgo Model.Partition Model.Deletion Model.EuclidLP Model.EuclidAlgo.
+From PrefVerif Require Proofs.Deletion Proofs.Partition Proofs.ELPOptimal Proofs.PartitionComplete Proofs.EuclidLP
+  Proofs.EuclidAlgoComplete Proofs.EuclidLPSolve.
 Import ListNotations.
 Local Close Scope Qc_scope.
 Local Close Scope Q_scope.
@@ -1251,4 +1254,226 @@ Proof.
   destruct (Proofs.ELO.elo_agrees_reference _ _ W') as (x' & Hx').
   rewrite E in Hx. rewrite E' in Hx'. injection Hx as -> _. injection Hx' as -> _.
   symmetry. now apply Proofs.SP.sp_decide_relabel.
+Qed.
+
+(* ============================================================================================================ *)
+(* Part 7 — the remaining mirrors and references (round 3)                                                       *)
+
+(* ---- (b) the exact 1-Euclidean reference eucl_decide: a boolean reflecting an invariant Prop ---- *)
+Theorem Euclidean_relabel_inj (f : N -> N) profile : (forall x y, f x = f y -> x = y) ->
+  (Proofs.Euclid.Euclidean (map (map f) profile) <-> Proofs.Euclid.Euclidean profile).
+Proof.
+  intros Hf. split; [apply Proofs.Euclid.Euclidean_relabel|]. intros H.
+  set (U := concat profile). apply (Proofs.Euclid.Euclidean_relabel (Proofs.Tree.inv_on f U)).
+  assert (E : map (map (Proofs.Tree.inv_on f U)) (map (map f) profile) = profile).
+  { rewrite map_map. rewrite <- (map_id profile) at 2. apply map_ext_in. intros v Hv.
+    apply Proofs.Tree.map_inv_on; [exact Hf|]. intros x Hx. apply in_concat. exists v. split; assumption. }
+  now rewrite E.
+Qed.
+
+Lemma ranked_on_perm alts alts' p p' : Permutation alts alts' -> Permutation p p' ->
+  Proofs.Euclid.ranked_on alts p -> Proofs.Euclid.ranked_on alts' p'.
+Proof.
+  unfold Proofs.Euclid.ranked_on. intros Ha Hp H. rewrite Forall_forall in *. intros r Hr.
+  transitivity alts; [now apply Permutation_sym|]. apply H. eapply Permutation_in; [apply Permutation_sym; exact Hp|exact Hr].
+Qed.
+
+Lemma ranked_on_map (f : N -> N) alts p :
+  Proofs.Euclid.ranked_on alts p -> Proofs.Euclid.ranked_on (map f alts) (map (map f) p).
+Proof.
+  unfold Proofs.Euclid.ranked_on. intros H. rewrite Forall_forall in *. intros r Hr. apply in_map_iff in Hr.
+  destruct Hr as (r0 & <- & Hr0). apply Permutation_map. now apply H.
+Qed.
+
+Theorem eucl_decide_perm alts alts' p p' : NoDup alts -> Proofs.Euclid.ranked_on alts p ->
+  Permutation alts alts' -> Permutation p p' -> EuclidLP.eucl_decide alts p = EuclidLP.eucl_decide alts' p'.
+Proof.
+  intros Hnd Hrk Ha Hp. apply bool_eq_iff'.
+  rewrite (Proofs.EuclidLP.eucl_decide_correct alts p Hnd Hrk).
+  rewrite (Proofs.EuclidLP.eucl_decide_correct alts' p' (Permutation_NoDup Ha Hnd) (ranked_on_perm _ _ _ _ Ha Hp Hrk)).
+  split; apply Proofs.Euclid.Euclidean_perm; [exact Hp|now apply Permutation_sym].
+Qed.
+
+Theorem eucl_decide_relabel (f : N -> N) alts p : (forall x y, f x = f y -> x = y) ->
+  NoDup alts -> Proofs.Euclid.ranked_on alts p ->
+  EuclidLP.eucl_decide (map f alts) (map (map f) p) = EuclidLP.eucl_decide alts p.
+Proof.
+  intros Hf Hnd Hrk. apply bool_eq_iff'.
+  rewrite (Proofs.EuclidLP.eucl_decide_correct alts p Hnd Hrk).
+  rewrite (Proofs.EuclidLP.eucl_decide_correct _ _ (Proofs.Tree.NoDup_map_injective f alts Hf Hnd) (ranked_on_map f alts p Hrk)).
+  now apply Euclidean_relabel_inj.
+Qed.
+
+(* ---- the mirror of is_one_euclidean: for every sound and complete LP oracle its verdict is eucl_decide ---- *)
+Theorem eucl_algo_verdict_perm lp lp' alts alts' orders orders' :
+  Proofs.EuclidAlgoComplete.lp_sound_spec lp -> Proofs.EuclidAlgoComplete.lp_complete lp ->
+  Proofs.EuclidAlgoComplete.lp_sound_spec lp' -> Proofs.EuclidAlgoComplete.lp_complete lp' ->
+  SC.wf_profile alts orders -> SC.wf_profile alts' orders' -> orders <> [] -> alts <> [] ->
+  Permutation alts alts' -> Permutation orders orders' ->
+  EuclidAlgo.eucl_algo_verdict lp alts orders = EuclidAlgo.eucl_algo_verdict lp' alts' orders'.
+Proof.
+  intros S1 C1 S2 C2 W W' Ho Hal Ha Hp.
+  rewrite (Proofs.EuclidAlgoComplete.eucl_algo_verdict_exact lp alts orders S1 C1 W Ho Hal).
+  rewrite (Proofs.EuclidAlgoComplete.eucl_algo_verdict_exact lp' alts' orders' S2 C2 W').
+  - destruct W as (Hnd & _ & Hrk). now apply eucl_decide_perm.
+  - intros ->. apply Permutation_sym, Permutation_nil in Hp. contradiction.
+  - intros ->. apply Permutation_sym, Permutation_nil in Ha. contradiction.
+Qed.
+
+Theorem eucl_algo_verdict_relabel (f : N -> N) lp lp' alts orders : (forall x y, f x = f y -> x = y) ->
+  Proofs.EuclidAlgoComplete.lp_sound_spec lp -> Proofs.EuclidAlgoComplete.lp_complete lp ->
+  Proofs.EuclidAlgoComplete.lp_sound_spec lp' -> Proofs.EuclidAlgoComplete.lp_complete lp' ->
+  SC.wf_profile alts orders -> SC.wf_profile (map f alts) (map (map f) orders) -> orders <> [] -> alts <> [] ->
+  EuclidAlgo.eucl_algo_verdict lp' (map f alts) (map (map f) orders) = EuclidAlgo.eucl_algo_verdict lp alts orders.
+Proof.
+  intros Hf S1 C1 S2 C2 W W' Ho Hal.
+  rewrite (Proofs.EuclidAlgoComplete.eucl_algo_verdict_exact lp alts orders S1 C1 W Ho Hal).
+  rewrite (Proofs.EuclidAlgoComplete.eucl_algo_verdict_exact lp' _ _ S2 C2 W').
+  - destruct W as (Hnd & _ & Hrk). now apply eucl_decide_relabel.
+  - destruct orders; [contradiction|discriminate].
+  - destruct alts; [contradiction|discriminate].
+Qed.
+
+(* the extracted mirror (exact Fourier-Motzkin oracle, no hypothesis on the LP) *)
+Theorem eucl_algo_exact_verdict_perm alts alts' orders orders' :
+  SC.wf_profile alts orders -> SC.wf_profile alts' orders' -> orders <> [] -> alts <> [] ->
+  Permutation alts alts' -> Permutation orders orders' ->
+  EuclidAlgo.eucl_algo_verdict EuclidAlgo.lp_checked alts orders = EuclidAlgo.eucl_algo_verdict EuclidAlgo.lp_checked alts' orders'.
+Proof.
+  intros W W' Ho Hal Ha Hp.
+  rewrite (Proofs.EuclidLPSolve.eucl_algo_exact_verdict alts orders W Ho Hal).
+  rewrite (Proofs.EuclidLPSolve.eucl_algo_exact_verdict alts' orders' W').
+  - destruct W as (Hnd & _ & Hrk). now apply eucl_decide_perm.
+  - intros ->. apply Permutation_sym, Permutation_nil in Hp. contradiction.
+  - intros ->. apply Permutation_sym, Permutation_nil in Ha. contradiction.
+Qed.
+
+(* ---- (c) the mirror of k_alternative_deletion (dynamic programme): its optimum is min_alt_del ---- *)
+Section DPMirror.
+Variables (pair_first pair_first' : N -> N -> bool) (ext_order ext_order' : list (list N) -> list (list N)).
+Hypothesis ext_ok : forall l X, In X (ext_order l) <-> In X l.
+Hypothesis ext_ok' : forall l X, In X (ext_order' l) <-> In X l.
+
+Theorem elp_optimum_perm alts alts' votes votes' :
+  NoDup alts -> votes <> [] -> (forall v, In v votes -> Permutation alts v) ->
+  Permutation alts alts' -> Permutation votes votes' ->
+  length (snd (ELPDP.k_alternative_deletion pair_first ext_order alts votes))
+  = length (snd (ELPDP.k_alternative_deletion pair_first' ext_order' alts' votes')).
+Proof.
+  intros Hnd Hne Hv Ha Hp.
+  assert (Hv' : forall v, In v votes' -> Permutation alts' v).
+  { intros v Hin. transitivity alts; [now apply Permutation_sym|]. apply Hv.
+    eapply Permutation_in; [apply Permutation_sym; exact Hp|exact Hin]. }
+  assert (Hne' : votes' <> []) by (intros ->; apply Permutation_sym, Permutation_nil in Hp; contradiction).
+  rewrite (Proofs.ELPOptimal.elp_optimal pair_first ext_order ext_ok alts votes Hnd Hne Hv).
+  rewrite (Proofs.ELPOptimal.elp_optimal pair_first' ext_order' ext_ok' alts' votes' (Permutation_NoDup Ha Hnd) Hne' Hv').
+  rewrite (Proofs.Deletion.min_alt_del_reorder alts (map SP.strictify votes) (map SP.strictify votes'))
+    by (now apply Permutation_map).
+  apply Proofs.Deletion.min_alt_del_alts_perm; [exact Hnd| |exact Ha].
+  apply Proofs.SP.complete_on_strict_profile; [exact Hnd|]. apply Forall_forall. intros r Hr. apply Hv.
+  eapply Permutation_in; [apply Permutation_sym; exact Hp|exact Hr].
+Qed.
+
+Theorem elp_optimum_relabel (f : N -> N) alts votes : (forall x y, f x = f y -> x = y) ->
+  NoDup alts -> votes <> [] -> (forall v, In v votes -> Permutation alts v) ->
+  length (snd (ELPDP.k_alternative_deletion pair_first' ext_order' (map f alts) (map (map f) votes)))
+  = length (snd (ELPDP.k_alternative_deletion pair_first ext_order alts votes)).
+Proof.
+  intros Hf Hnd Hne Hv.
+  rewrite (Proofs.ELPOptimal.elp_optimal pair_first ext_order ext_ok alts votes Hnd Hne Hv).
+  rewrite (Proofs.ELPOptimal.elp_optimal pair_first' ext_order' ext_ok' (map f alts) (map (map f) votes)
+             (Proofs.Tree.NoDup_map_injective f alts Hf Hnd)).
+  - rewrite <- (Proofs.Deletion.min_alt_del_relabel f Hf alts (map SP.strictify votes)). f_equal.
+    rewrite !map_map. apply map_ext. intros r. apply (Proofs.SP.strictify_map f).
+  - destruct votes; [contradiction|discriminate].
+  - intros v Hin. apply in_map_iff in Hin. destruct Hin as (v0 & <- & Hv0). apply Permutation_map. now apply Hv.
+Qed.
+End DPMirror.
+
+(* ---- the mirror of k_alternative_partition_brut_force: found / not found and the number of axes ---- *)
+Lemma brute_force_ok_size alts votes k res : Partition.brute_force_ok alts votes k res = true ->
+  option_map (@length (list N)) res
+  = if Partition.min_partition alts votes <=? k then Some (Partition.min_partition alts votes) else None.
+Proof.
+  unfold Partition.brute_force_ok, Partition.brute_force_ok_with.
+  destruct (Partition.min_partition alts votes <=? k); destruct res as [axes|]; try discriminate; [|reflexivity].
+  intros H. apply andb_true_iff in H. destruct H as [_ H]. apply Nat.eqb_eq in H. simpl. now rewrite H.
+Qed.
+
+Section BFMirror.
+Variables set_order set_order' : list N -> list N.
+Hypothesis so_ok : forall L, Permutation L (set_order L).
+Hypothesis so_ok' : forall L, Permutation L (set_order' L).
+
+Theorem bf_algo_size_perm alts alts' votes votes' k :
+  Proofs.Partition.wf_profile alts votes -> votes <> [] -> Permutation alts alts' -> Permutation votes votes' ->
+  option_map (@length (list N)) (PartitionAlgo.bf_algo set_order alts votes k)
+  = option_map (@length (list N)) (PartitionAlgo.bf_algo set_order' alts' votes' k).
+Proof.
+  intros W Hne Ha Hp.
+  assert (W' : Proofs.Partition.wf_profile alts' votes').
+  { destruct W as [Hnd Hf]. split; [exact (Permutation_NoDup Ha Hnd)|]. rewrite Forall_forall in *. intros r Hr.
+    transitivity alts; [now apply Permutation_sym|]. apply Hf.
+    eapply Permutation_in; [apply Permutation_sym; exact Hp|exact Hr]. }
+  assert (Hne' : votes' <> []) by (intros ->; apply Permutation_sym, Permutation_nil in Hp; contradiction).
+  rewrite (brute_force_ok_size _ _ _ _ (Proofs.PartitionComplete.bf_algo_ok set_order alts votes k W Hne so_ok)).
+  rewrite (brute_force_ok_size _ _ _ _ (Proofs.PartitionComplete.bf_algo_ok set_order' alts' votes' k W' Hne' so_ok')).
+  rewrite (Proofs.Partition.min_partition_profile_perm alts votes votes' Hp).
+  assert (W2 : Proofs.Partition.wf_profile alts votes').
+  { destruct W as [Hnd Hf]. split; [exact Hnd|]. rewrite Forall_forall in *. intros r Hr. apply Hf.
+    eapply Permutation_in; [apply Permutation_sym; exact Hp|exact Hr]. }
+  now rewrite (Proofs.Partition.min_partition_alts_perm alts alts' votes' W2 Ha).
+Qed.
+
+Theorem bf_algo_size_relabel (f : N -> N) alts votes k : (forall x y, f x = f y -> x = y) ->
+  Proofs.Partition.wf_profile alts votes -> votes <> [] ->
+  option_map (@length (list N)) (PartitionAlgo.bf_algo set_order' (map f alts) (map (map f) votes) k)
+  = option_map (@length (list N)) (PartitionAlgo.bf_algo set_order alts votes k).
+Proof.
+  intros Hf W Hne.
+  assert (W' : Proofs.Partition.wf_profile (map f alts) (map (map f) votes)).
+  { destruct W as [Hnd Hr]. split; [now apply Proofs.Tree.NoDup_map_injective|]. rewrite Forall_forall in *.
+    intros r Hin. apply in_map_iff in Hin. destruct Hin as (r0 & <- & Hr0). apply Permutation_map. now apply Hr. }
+  assert (Hne' : map (map f) votes <> []) by (destruct votes; [contradiction|discriminate]).
+  rewrite (brute_force_ok_size _ _ _ _ (Proofs.PartitionComplete.bf_algo_ok set_order alts votes k W Hne so_ok)).
+  rewrite (brute_force_ok_size _ _ _ _ (Proofs.PartitionComplete.bf_algo_ok set_order' _ _ k W' Hne' so_ok')).
+  now rewrite (Proofs.Partition.min_partition_relabel f Hf alts votes).
+Qed.
+End BFMirror.
+
+(* ---- (a) is_part when the ballots are stored in another order: same verdict, and the same partition as a SET OF SETS
+        (the LIST of parts follows the first occurrences, see is_part_list_order_refuted in Properties/C15.v) ---- *)
+Lemma is_part_cover ballots ballots' parts parts' : Permutation ballots ballots' ->
+  Approval.is_part ballots = Some parts -> Approval.is_part ballots' = Some parts' ->
+  forall s, In s parts -> exists s', In s' parts' /\ Proofs.Approval.SetEq s s'.
+Proof.
+  intros Hp E E' s Hs.
+  apply Proofs.Approval.part_witness, Proofs.Approval.part_check_spec in E. destruct E as (_ & E2 & _).
+  apply Proofs.Approval.part_witness, Proofs.Approval.part_check_spec in E'. destruct E' as (E1' & _ & _).
+  destruct (E2 s Hs) as (b & Hb & Hsb). destruct (E1' b (Permutation_in _ Hp Hb)) as (s' & Hs' & Hs'b).
+  exists s'. split; [exact Hs'|]. eapply Proofs.Approval.SetEq_trans; [exact Hsb|]. now apply Proofs.Approval.SetEq_sym.
+Qed.
+
+Theorem is_part_reorder ballots ballots' : Permutation ballots ballots' ->
+  match Approval.is_part ballots, Approval.is_part ballots' with
+  | Some parts, Some parts' =>
+      (forall s, In s parts -> exists s', In s' parts' /\ Proofs.Approval.SetEq s s') /\
+      (forall s', In s' parts' -> exists s, In s parts /\ Proofs.Approval.SetEq s' s)
+  | None, None => True
+  | _, _ => False
+  end.
+Proof.
+  intros Hp.
+  assert (D : forall b b', Permutation b b' -> Proofs.Approval.PartOK b -> Proofs.Approval.PartOK b').
+  { intros b b' H Hok x y Hx Hy. apply Hok; eapply Permutation_in; try (apply Permutation_sym; exact H); assumption. }
+  destruct (Approval.is_part ballots) as [parts|] eqn:E; destruct (Approval.is_part ballots') as [parts'|] eqn:E'.
+  - split; [now apply (is_part_cover ballots ballots')|apply (is_part_cover ballots' ballots); auto using Permutation_sym].
+  - assert (H : exists q, Approval.is_part ballots' = Some q).
+    { apply Proofs.Approval.part_correct. apply (D ballots ballots' Hp). apply Proofs.Approval.part_correct. now exists parts. }
+    destruct H as (q & Hq). congruence.
+  - assert (H : exists q, Approval.is_part ballots = Some q).
+    { apply Proofs.Approval.part_correct. apply (D ballots' ballots (Permutation_sym Hp)).
+      apply Proofs.Approval.part_correct. now exists parts'. }
+    destruct H as (q & Hq). congruence.
+  - exact I.
 Qed.
